@@ -44,6 +44,7 @@ def correspondence(ctx: core.Ctx) -> None:
     many = V.gen_many_range_pairs(ctx.rng, ctx.budget(400, 8000))
     for k in range(0, len(many), 2000):
         vc_engine.run_pairs(ctx, many[k:k + 2000], "many-ranges", WHICH)
+    vc_engine.run_pairs(ctx, V.pin_at_end_pairs(), "pin-at-end", WHICH)
     fam = V.gen_family_pairs(ctx.rng, ctx.budget(1200, 30000))
     for k in range(0, len(fam), 2000):
         vc_engine.run_pairs(ctx, fam[k:k + 2000], "release-family", WHICH)
